@@ -1,7 +1,8 @@
 use hashbrown::{HashMap, HashSet};
 
 use crate::adt::{AdtMetadata, FieldPosition};
-use crate::evolution::SerializedEvolutionStep;
+use crate::evolution::{SerializedEvolutionStep, FIELD_REMOVED};
+use crate::serializer::StoreStringResult;
 use crate::{
     BinaryOutput, BinarySerializer, Error, Evolution, Result, SerializationContext,
     DEFAULT_CAPACITY,
@@ -13,6 +14,9 @@ pub struct AdtSerializer<'a, 'b, Output: BinaryOutput> {
     buffers: Vec<Option<Vec<u8>>>, // TODO: We can avoid this completely by generating the write_fields in the proper order
     last_index_per_chunk: HashMap<u8, u8>,
     field_indices: HashMap<String, FieldPosition>,
+    // Field names written to the evolution header, registered in the string table *before* any field is
+    // serialized: the header precedes the chunks in the stream, so the reader numbers these names first.
+    header_names: Vec<Option<StoreStringResult>>,
 }
 
 impl<'a, 'b, Output: BinaryOutput> AdtSerializer<'a, 'b, Output> {
@@ -28,11 +32,25 @@ impl<'a, 'b, Output: BinaryOutput> AdtSerializer<'a, 'b, Output> {
             buffers: Vec::new(),
             last_index_per_chunk: HashMap::new(),
             field_indices: HashMap::new(),
+            header_names: Vec::new(),
         }
     }
 
     pub fn new(metadata: &'a AdtMetadata, context: &'b mut SerializationContext<Output>) -> Self {
         context.write_u8(metadata.version);
+        let header_names = metadata
+            .evolution_steps
+            .iter()
+            .map(|evolution| match evolution {
+                Evolution::FieldRemoved { name } | Evolution::FieldMadeTransient { name } => {
+                    Some(context.state_mut().store_string(name.clone()))
+                }
+                Evolution::FieldMadeOptional { name } if metadata.removed_fields.contains(name) => {
+                    Some(context.state_mut().store_string(name.clone()))
+                }
+                _ => None,
+            })
+            .collect();
         Self {
             metadata,
             context,
@@ -41,6 +59,7 @@ impl<'a, 'b, Output: BinaryOutput> AdtSerializer<'a, 'b, Output> {
                 .collect(),
             last_index_per_chunk: HashMap::new(),
             field_indices: HashMap::new(),
+            header_names,
         }
     }
 
@@ -115,20 +134,20 @@ impl<'a, 'b, Output: BinaryOutput> AdtSerializer<'a, 'b, Output> {
                     let size = self.buffers[v].as_ref().unwrap().len().try_into()?;
                     Ok(SerializedEvolutionStep::FieldAddedToNewChunk { size })
                 }
-                Evolution::FieldMadeOptional { name } => match self.field_indices.get(name) {
-                    Some(field_position) => Ok(SerializedEvolutionStep::FieldMadeOptional {
-                        position: *field_position,
-                    }),
-                    None => {
-                        if removed_fields.contains(name) {
-                            Ok(SerializedEvolutionStep::FieldRemoved {
-                                field_name: name.clone(),
-                            })
-                        } else {
-                            Err(Error::UnknownFieldReferenceInEvolutionStep(name.clone()))
+                Evolution::FieldMadeOptional { name } => {
+                    if removed_fields.contains(name) {
+                        Ok(SerializedEvolutionStep::FieldRemoved {
+                            field_name: name.clone(),
+                        })
+                    } else {
+                        match self.field_indices.get(name) {
+                            Some(field_position) => Ok(SerializedEvolutionStep::FieldMadeOptional {
+                                position: *field_position,
+                            }),
+                            None => Err(Error::UnknownFieldReferenceInEvolutionStep(name.clone())),
                         }
                     }
-                },
+                }
                 Evolution::FieldRemoved { name } => Ok(SerializedEvolutionStep::FieldRemoved {
                     field_name: name.clone(),
                 }),
@@ -138,7 +157,21 @@ impl<'a, 'b, Output: BinaryOutput> AdtSerializer<'a, 'b, Output> {
                     })
                 }
             }?;
-            step.serialize(self.context)?;
+            match (&step, &self.header_names[v]) {
+                (SerializedEvolutionStep::FieldRemoved { .. }, Some(stored)) => {
+                    // the name got its id in `new`; write it the way DeduplicatedString would have at that point
+                    self.context.write_var_i32(FIELD_REMOVED);
+                    match stored {
+                        StoreStringResult::StringAlreadyStored { id } => {
+                            self.context.write_var_i32(-id.0)
+                        }
+                        StoreStringResult::StringIsNew { value, .. } => {
+                            value.serialize(self.context)?
+                        }
+                    }
+                }
+                _ => step.serialize(self.context)?,
+            }
         }
         Ok(())
     }
